@@ -39,19 +39,36 @@ Lemma Reg_e w st d e :
   ({| Reg_s_value := v |}, trunc w v).
 Proof. destruct e; reflexivity. Qed.
 
+(* ---- shape-tolerant normalisation: every way of writing "keep the low n bits" (x & ((1<<n)-1), ((1<<n)-1) & x,
+   x % (1<<n), Wire_put n x, repeated or redundant) becomes  x mod 2^n ; locals are inlined; shifts by 0 vanish *)
+Lemma land_pow_mod a n : 0 <= n -> Z.land a (2 ^ n - 1) = a mod 2 ^ n.
+Proof. intros. replace (2 ^ n - 1) with (Z.ones n) by (rewrite Z.ones_equiv; lia). apply Z.land_ones; lia. Qed.
+Lemma land_pow_mod_l a n : 0 <= n -> Z.land (2 ^ n - 1) a = a mod 2 ^ n.
+Proof. intros. rewrite Z.land_comm. apply land_pow_mod; lia. Qed.
+Lemma mod_mod_pow a n : 0 <= n -> (a mod 2 ^ n) mod 2 ^ n = a mod 2 ^ n.
+Proof. intros. apply Z.mod_mod, Z.pow_nonzero; lia. Qed.
+
+Ltac norm_mod :=
+  cbv zeta; unfold Wire_put, Wire_prepare, py_shl, py_shr; cbv zeta;
+  rewrite ?Z.shiftr_0_r, ?Z.shiftl_0_r;
+  repeat match goal with |- context [Z.shiftl 1 ?n] => rewrite (Z.shiftl_1_l n) end;
+  rewrite ?Z.pow_0_r, ?Z.div_1_r;
+  rewrite ?land_pow_mod, ?land_pow_mod_l by lia;
+  rewrite ?mod_mod_pow by lia.
+
 (* Range [W-1:0] of any integer into a W-bit wire = its low W bits *)
 Lemma Range_low W x : 1 <= W -> Range_propagate W (W - 1) 0 x = x mod 2 ^ W.
 Proof.
-  intros HW. unfold Range_propagate. cbv zeta.
-  change (Wire_put W ?v) with (trunc W v).
-  unfold py_shr, py_shl. rewrite Z.shiftr_0_r.
-  replace (W - 1 - 0 + 1) with W by lia.
-  change (Z.land x (Z.shiftl 1 W - 1)) with (trunc W x).
-  rewrite trunc_idem by lia. apply trunc_mod; lia.
+  intros HW. unfold Range_propagate.
+  cbv zeta; unfold Wire_put, Wire_prepare, py_shl, py_shr; cbv zeta.
+  (* the number of bits, however it is written, is W *)
+  repeat match goal with |- context [Z.shiftl 1 ?n] => rewrite (Z.shiftl_1_l n) end.
+  repeat match goal with |- context [2 ^ ?n] => progress (replace n with W by lia) end.
+  norm_mod. reflexivity.
 Qed.
 
 Lemma Constant_val w c : 0 <= w -> Constant_propagate w c = c mod 2 ^ w.
-Proof. intros; unfold Constant_propagate; cbv zeta. change (Wire_put w c) with (trunc w c). apply trunc_mod; lia. Qed.
+Proof. intros; unfold Constant_propagate. norm_mod. reflexivity. Qed.
 
 Lemma trunc1_b2z a : trunc 1 (b2z a) = b2z a.
 Proof. destruct a; reflexivity. Qed.
